@@ -84,6 +84,12 @@ class Tracer:
                         psnap(parent)
                 n0 = len(tracer.calls)
                 ev = {"name": self_pf.name, "kind": _kind, "key": key}
+                try:
+                    ev["cur_before"] = self_pf._evaluation_counter.current
+                    ev["max"] = self_pf._evaluation_counter.maximum
+                    ev["seen_before"] = bool(self_pf._database.get(self_pf._database.get_hashable_ndarray(np.asarray(xu))))
+                except Exception:  # noqa: BLE001
+                    ev["seen_before"] = None
                 tracer.events.append(ev)  # request order
                 tracer._stack.append((ev, snapshot))
                 if _kind == "j":
@@ -132,7 +138,7 @@ def tracing():
 # --------------------------------------------------------------------------- problems
 
 
-def make_problem(kind: str, tracer: Tracer, nan_region: bool = False, x0=(0.5, 0.5), integer=False):
+def make_problem(kind: str, tracer: Tracer, nan_region: bool = False, x0=(0.5, 0.5), integer=False, raise_region: str = ""):
     """Small 2-D problems; every original callable logs its calls in the tracer."""
     from gemseo.algos.design_space import DesignSpace
     from gemseo.algos.optimization_problem import OptimizationProblem
@@ -146,6 +152,9 @@ def make_problem(kind: str, tracer: Tracer, nan_region: bool = False, x0=(0.5, 0
         def func(x):
             tracer.log_call(name, "v", x)
             x = np.asarray(x).real
+            if raise_region == name and x[1] > 0.75:
+                msg = "the user function cannot be evaluated here"
+                raise ValueError(msg)
             if nan_region and name == "f" and x[0] > 1.25:
                 return float("nan")
             return f(x)
@@ -195,7 +204,9 @@ def model_lines(runs: list[dict[str, Any]]) -> tuple[list[str], list[list[str]]]
             if out.startswith("stop:"):
                 t = TERM.get(out[5:])
                 if t is None:
-                    out = "stop:?" + out[5:]
+                    # an exception of the user's function (not a termination criterion)
+                    out = "raised"
+                    nan = "2"
                 else:
                     out = "stop:" + t
                     if t == "functionIsNan":
@@ -245,6 +256,13 @@ def oracle_run(run, label) -> list[tuple[str, str]]:
     allowed = n + (1 if stopped_nan else 0)
     if not len(run["new_value_points"]) <= allowed:
         bad.append(("budget-calls", f"{label}: original functions called at {len(run['new_value_points'])} distinct new points for a budget of {n}"))
+    # the mechanism named by the property: once the counter is full, no original callable (value or
+    # Jacobian) runs at a point that has no recorded output yet
+    for ev in run["events"]:
+        if ev.get("called") and ev.get("seen_before") is False and ev.get("max", 0) and ev.get("cur_before", 0) >= ev["max"]:
+            bad.append(("evaluated-unseen-after-budget",
+                        f"{label}: original {ev['name']} ({'Jacobian' if ev['kind'] == 'j' else 'value'}) was called at the unseen point {ev['key']} although the counter was full ({ev['cur_before']}/{ev['max']})"))
+            break
     if run.get("raised"):
         bad.append(("execute-raises", f"{label}: execute raised {run['raised']} instead of returning a result"))
     elif run.get("is_opt") and run.get("result_none"):
@@ -328,14 +346,14 @@ def run_scripted(case) -> list[dict[str, Any]]:
     return out
 
 
-def real_algo_runs(algo: str, kind: str, budget: int, nan: bool, is_doe: bool) -> list[dict[str, Any]] | None:
+def real_algo_runs(algo: str, kind: str, budget: int, nan: bool, is_doe: bool, raising: str = "", kkt: bool = False) -> list[dict[str, Any]] | None:
     """Run a factory algorithm once; None when it cannot be configured in this sandbox."""
     from gemseo.algos.doe.factory import DOELibraryFactory
     from gemseo.algos.opt.factory import OptimizationLibraryFactory
 
     factory = DOELibraryFactory() if is_doe else OptimizationLibraryFactory()
     with tracing() as tr:
-        pb = make_problem(kind, tr, nan_region=nan)
+        pb = make_problem(kind, tr, nan_region=nan, raise_region=raising if is_doe else "")
         lib = factory.create(algo)
         if not lib.is_algorithm_suited(lib.ALGORITHM_INFOS[algo], pb):
             return None
@@ -345,12 +363,14 @@ def real_algo_runs(algo: str, kind: str, budget: int, nan: bool, is_doe: bool) -
                 st = dict(st)
                 for trial in ({"n_samples": n}, {}):
                     try:
-                        return factory.execute(pb_, algo_name=algo, **trial, **st)
+                        return lib.execute(pb_, **trial, **st)
                     except Exception as e:  # noqa: BLE001
                         if type(e).__name__ != "ValidationError":
                             raise
                         last = e
                 raise last
+            if kkt:
+                st = dict(st, kkt_tol_abs=1e-14)
             return factory.execute(pb_, algo_name=algo, max_iter=n, **st)
 
         try:
@@ -361,17 +381,26 @@ def real_algo_runs(algo: str, kind: str, budget: int, nan: bool, is_doe: bool) -
             # rejected before any request was issued: invalid settings for this algorithm, not a run
             return None
         if is_doe:
-            lib_samples = None
-            with contextlib.suppress(Exception):
-                lib_samples = factory.create(algo).samples
             run["is_doe"] = True
+            # "a DOE evaluates each distinct generated sample once and records them in generation order"
+            samples = [tuple(float(t) for t in row) for row in np.asarray(lib.samples)]
+            distinct = list(dict.fromkeys(samples))
+            fails = {smp for smp in distinct if raising and smp[1] > 0.75}
+            fnames = ["f"] + (["g"] if kind in ("ineq", "both") else []) + (["h"] if kind == "both" else [])
+            order = {nme: i for i, nme in enumerate(fnames)}
+            # outputs evaluated before the raising function of a failing sample are still recorded
+            def expected_entry(smp):
+                if smp not in fails:
+                    return True
+                return order.get(raising, 0) > 0
+            run["doe_expected_keys"] = [smp for smp in distinct if expected_entry(smp)]
+            run["doe_failing"] = len(fails)
             # for DOEs the budget is the number of generated samples
             n_samples = run["nonempty_after"] - run["nonempty_before"]
-            run["doe_db_keys"] = [tuple(float(t) for t in k.unwrap()) for k in pb.database]
+            run["doe_db_keys"] = [tuple(float(t) for t in k.unwrap()) for k, v in pb.database.items() if v]
             vcalls = [(nme, p) for (nme, k, p) in tr.calls if k == "v"]
             run["doe_duplicate_calls"] = len(vcalls) - len(set(vcalls))
-            run["max_iter"] = max(run["events"][-1]["cur"] if run["events"] else 0, n_samples, 1) if "n_samples" not in run else run["max_iter"]
-            del lib_samples
+            run["max_iter"] = max(len(samples), 1)
         return [run]
 
 
@@ -390,6 +419,10 @@ def check_runs(res: Result, runs: list[dict[str, Any]], tag: str, batch: list):
         for key, msg in oracle_run(run, run["label"]):
             res.violate("oracle", key, msg, {"run": strip_run(run), "case": run.get("case")})
         if run.get("is_doe"):
+            if run["doe_db_keys"] != run["doe_expected_keys"] and not run.get("raised"):
+                res.violate("oracle", "doe-samples-not-recorded-in-order",
+                            f"{run['label']}: the database holds {len(run['doe_db_keys'])} points, expected the {len(run['doe_expected_keys'])} distinct generated samples (failing ones excepted) in generation order",
+                            {"run": strip_run(run), "db_keys": run["doe_db_keys"][:20], "expected": run["doe_expected_keys"][:20]})
             if run["doe_duplicate_calls"]:
                 res.violate("oracle", "doe-sample-twice", f"{run['label']}: a distinct sample was evaluated more than once",
                             {"run": strip_run(run)})
@@ -467,15 +500,19 @@ def run(ctx) -> Result:
     skipped = []
     for algo in opt_algos + doe_algos:
         is_doe = algo in doe_algos
-        combos = [(k, b, nan) for k in kinds for b in budgets for nan in (False, True)]
+        combos = [(k, b, nan, extra) for k in kinds for b in budgets for nan in (False, True)
+                  for extra in (("", "f", "g") if is_doe else (False, True))]
+        combos = [c for c in combos if not (is_doe and c[3] == "g" and c[0] == "none")]
         if not ctx.thorough:
-            combos = rng.sample(combos, 3)
-        for kind, b, nan in combos:
+            combos = rng.sample(combos, 4)
+        for kind, b, nan, extra in combos:
             import time as _t
 
             if _t.time() > ctx.deadline:
                 break
-            runs = real_algo_runs(algo, kind, b, nan, is_doe)
+            runs = real_algo_runs(algo, kind, b, nan, is_doe, raising=extra if is_doe else "", kkt=(extra is True))
+            if runs is not None:
+                res.count("doe:raising=" + (extra or "none") if is_doe else f"opt:kkt={int(bool(extra))}")
             if runs is None:
                 skipped.append(f"{algo}/{kind}")
                 continue
